@@ -48,7 +48,7 @@ Qed.
 Theorem int_lists_rowwise (f : Z -> list Z) sep rows :
   int_lists_to_strings_gen (map f) sep rows = map (fun r => intercalate [sep] (map f r)) rows.
 Proof.
-  unfold int_lists_to_strings_gen.
+  unfold int_lists_to_strings_gen, m_row_len.
   rewrite map_map. rewrite (split_rows_map_concat (fun n => len (f n)) rows).
   assert (Ej : join_keep_last sep (map f (concat rows))
                = concat (map (fun r => join_keep_last sep (map f r)) rows)).
